@@ -71,7 +71,7 @@ CHECKS = {
               "against ZoneRules.tla (yearly rules evaluated by plain calendar arithmetic, model-checked separately), and the provider's "
               "sorted id list, aliases, fixed-offset ids and self-validation."),
         design_ref="DESIGN.md section 5 C06",
-        note="Quick tier compares the first 30 and last 12 tail intervals per zone and walks every 40th zone's tail to 9999; thorough compares all. CLDR windows mapping and zone locations fields are skipped by length only.",
+        note="Quick tier compares the first 30 and last 12 tail intervals per zone and walks every 40th zone's tail to 9999; thorough compares all. CLDR windows mapping and zone locations fields are decoded by NzdFile.tla and compared too.",
         technique="independent TLA+ decoder of the database bytes run by TLC + rule evaluation in TLA+, compared with API walks by trace validation",
     ),
     "C07": dict(
@@ -81,9 +81,11 @@ CHECKS = {
               "semantics for numeric time patterns is model-checked by TLC (Representable => Parse(Format(v)) = v for every pattern of "
               "up to 3 tokens x a value grid); on the real package, random custom patterns and the built-in round-trip/ISO patterns of 7 "
               "types are exercised in the invariant and random ICU cultures over all calendars, and TLC decides per event whether the "
-              "round-trip law applies and checks round trip, re-format and determinism."),
+              "round-trip law applies and checks round trip, re-format (also for spliced texts that no value produces) and determinism (also "
+              "against a fresh interpreter). PatternFormat.tla is the reference formatter the model-checked law is stated on; the real texts "
+              "of generated patterns are compared with it as a reference clause."),
         design_ref="DESIGN.md section 5 C07",
-        note="Name fields only for cultures with distinct, prefix-free, digit-free names and ISO/Gregorian dates; embedded patterns, two-digit years and custom Duration/Instant patterns get determinism/re-format only; empty renderings make no promise.",
+        note="Name fields only for cultures with distinct, digit-free names that are not proper prefixes of one another at the place parsed, and ISO/Gregorian dates; empty renderings make no promise; the reference formatter's comparison is a reference clause (the property promises laws, not a particular text).",
         technique="TLA+ representability/delimitedness spec + reference semantics model-checked by TLC + TLC trace validation of format/parse events",
     ),
     "C08": dict(
@@ -94,9 +96,11 @@ CHECKS = {
               "concatenations and malformed families are created for 7 pattern types and several cultures, and formatted values plus "
               "mutations / out-of-range / non-ASCII / empty / NUL inputs are parsed; TLC replays each outcome through the protocol "
               "(creation: ok | InvalidPatternError; parse: success with a valid value | failure with its error available; no exception, "
-              "no hang) and compares creation with the scanner's prediction as a reference clause."),
+              "no hang). As reference clauses the spec also predicts which texts are patterns (PatternGrammar.tla: field-level grammar of "
+              "all seven types, model-checked total and a refinement of the scanner) and what local-time and offset patterns parse a text "
+              "to (PatternParse.tla)."),
         design_ref="DESIGN.md section 5 C08",
-        note="Field-level grammar (which letters/counts each type accepts) is not predicted by the spec; only the quoting layer is (as a reference clause).",
+        note="Grammar and reference parser are reference clauses (DIVERGE, never exit 1): the property allows any outcome that is a valid result; embedded patterns are outside the grammar; the parser covers local-time patterns without designator fields and offset patterns.",
         technique="TLA+ protocol + scanner state machine checked by TLC (totality) + TLC trace validation of fuzzed create/parse outcomes",
     ),
     "C09": dict(
@@ -152,9 +156,11 @@ CHECKS = {
               "package, adversarial query orders (years 1024 apart in every calendar, instants 512x32 days apart through caching "
               "zones, permuted provider lookups, more cultures than the format-info cache holds) are compared with cold-cache "
               "evaluations and Calendars.tla, and TLC-simulated two-thread schedules are enforced line by line on a shared "
-              "calculator and on a fresh provider."),
+              "calculator, a fresh provider, a fresh format info (LazyTables.tla) and a real _Cache (LraCache.tla's unlocked-test variant); "
+              "FixedZoneCache.tla models the fixed-zone cache filled by the first caller; first callers under other cultures and factory "
+              "routes are tried in fresh interpreters."),
         design_ref="DESIGN.md section 5 C13",
-        note="Schedules are enforced at Python line granularity for two threads; free-running many-thread stress is not part of the verdict.",
+        note="Schedules are enforced at Python line granularity for two threads; free-running 16-thread histories are judged too (a wrong answer there is a verdict, a clean run proves nothing).",
         technique="TLA+ cache/lock models checked by TLC over all interleavings + schedule-enforced replay on real threads + TLC trace validation",
     ),
     "C14": dict(
